@@ -58,6 +58,7 @@ class Gen {
   int maxDepth;
 public:
   bool siblingReuse{ false };
+  int scopeEscape{ 0 };   // percent: a quantified variable is used once more right after its scope has ended (ill-scoped near miss)
   int nearMiss{ 0 };   // percent: the second operand of a relation / set operation / recursion step gets a type that differs from the first in ONE place (type-checker near miss)
 private:
   static void CollectTuples(GTy& t, std::vector<GTy*>& out) { if (t.k == GTy::TUPLE) out.push_back(&t); for (auto& s : t.sub) CollectTuples(s, out); }
@@ -190,23 +191,31 @@ public:
     }
   }
 
+  // The grammar brackets logic sparingly: "( … )" is allowed only around a predicate (atom) or a binary connective, never around a
+  // quantifier, a negation or a predicate call; an operand / body that is itself unary therefore stays bare. lastKind: 0 atom, 1 unary, 2 binary.
+  int lastKind{ 0 };
+  std::string Operand(int depth) { std::string s = Logic(depth); return lastKind == 1 ? s : (lastKind == 0 && r.Pct(30) ? s : "(" + s + ")"); }
+  std::string Body(int depth) { std::string s = Logic(depth); return lastKind == 1 ? s : "(" + s + ")"; }
   std::string Logic(int depth) {
-    if (depth >= maxDepth) return Atom(depth);
+    if (depth >= maxDepth) { lastKind = 0; return Atom(depth); }
     switch (r.Below(12)) {
-    case 0: return "¬" + Wrap(Logic(depth + 1));
-    case 1: case 2: { static const char* ops[]{ "&", "∨", "⇒", "⇔" }; return Wrap(Logic(depth + 1)) + ops[r.Below(4)] + Wrap(Logic(depth + 1)); }
+    case 0: { std::string s = "¬" + Body(depth + 1); lastKind = 1; return s; }
+    case 1: case 2: { static const char* ops[]{ "&", "∨", "⇒", "⇔" }; std::string a = Operand(depth + 1); std::string s = a + ops[r.Below(4)] + Operand(depth + 1); lastKind = 2; return s; }
     case 3: case 4: {
       const GTy u = RandomElemType(1); const std::string v = Fresh(); const std::string dom = Expr(GTy::Set(u), depth + 1);
-      Push({ v, u }); std::string s = std::string(r.Pct(50) ? "∀" : "∃") + v + "∈" + dom + " " + Wrap(Logic(depth + 1)); locals.pop_back(); return s;
+      Push({ v, u }); std::string s = std::string(r.Pct(50) ? "∀" : "∃") + v + "∈" + dom + " " + Body(depth + 1); locals.pop_back();
+      lastKind = 1;
+      if (scopeEscape > 0 && r.Pct(scopeEscape)) { s = s + (r.Pct(50) ? "&" : "∨") + v + "=" + v; lastKind = 2; }
+      return s;
     }
     case 5: {
       const GTy a = RandomElemType(2), b = RandomElemType(2); const std::string va = Fresh(), vb = Fresh(); const std::string dom = Expr(GTy::Set(GTy::Tuple({ a, b })), depth + 1);
-      Push({ va, a }); Push({ vb, b }); std::string s = std::string(r.Pct(50) ? "∀" : "∃") + "(" + va + "," + vb + ")∈" + dom + " " + Wrap(Logic(depth + 1)); locals.pop_back(); locals.pop_back(); return s;
+      Push({ va, a }); Push({ vb, b }); std::string s = std::string(r.Pct(50) ? "∀" : "∃") + "(" + va + "," + vb + ")∈" + dom + " " + Body(depth + 1); locals.pop_back(); locals.pop_back(); lastKind = 1; return s;
     }
     case 6: { const GTy u = RandomElemType(1); const std::string va = Fresh(), vb = Fresh(); const std::string dom = Expr(GTy::Set(u), depth + 1);
-      Push({ va, u }); Push({ vb, u }); std::string s = "∀" + va + "," + vb + "∈" + dom + " " + Wrap(Logic(depth + 1)); locals.pop_back(); locals.pop_back(); return s; }
-    case 7: for (auto& f : env.funcs) if (f.logic && r.Pct(60)) return Call(f, depth); return Atom(depth);
-    default: return Atom(depth);
+      Push({ va, u }); Push({ vb, u }); std::string s = "∀" + va + "," + vb + "∈" + dom + " " + Body(depth + 1); locals.pop_back(); locals.pop_back(); lastKind = 1; return s; }
+    case 7: for (auto& f : env.funcs) if (f.logic && r.Pct(60)) { std::string s = Call(f, depth); lastKind = 1; return s; } lastKind = 0; return Atom(depth);
+    default: { std::string s = Atom(depth); lastKind = 0; return s; }
     }
   }
 
@@ -224,7 +233,7 @@ public:
       const GTy a = RandomElemType(2), b = RandomElemType(2); const GTy st = GTy::Set(GTy::Tuple({ a, b }));
       const std::string sv = Fresh(); Push({ sv, st }); const std::string x = Fresh(); Push({ x, a }); const std::string y = Fresh(); Push({ y, b });
       std::string body;
-      if (predicate) body = std::string(r.Pct(50) ? "∀" : "∃") + "(" + x + "," + y + ")∈" + sv + " " + Wrap(Logic(2));
+      if (predicate) body = std::string(r.Pct(50) ? "∀" : "∃") + "(" + x + "," + y + ")∈" + sv + " " + Body(2);
       else if (r.Pct(50)) body = "I{" + std::string(r.Pct(70) ? x : y) + "|(" + x + "," + y + "):∈" + sv + (r.Pct(50) ? ";" + Logic(2) : "") + "}";
       else body = "D{(" + x + "," + y + ")∈" + sv + "|" + Logic(2) + "}";
       locals.resize(base); return "[" + sv + "∈" + Dom(st) + "] " + body;
@@ -329,6 +338,36 @@ inline std::string Mutate(Rng& r, const std::string& text, const Env& env) {
   default: { std::string s; for (size_t i = 0; i < cps.size(); ++i) { s += cps[i]; if (r.Pct(15)) s += " "; } return s; }
   }
   std::string s; for (auto& c : cps) s += c; return s;
+}
+// an ill-scoped near miss as a whole expression (LOGIC): a name bound in a shallow scope, bound again deeper over an EMPTY domain of a
+// structurally different type, and used once more after that inner scope has ended. A correct checker rejects it (use out of scope);
+// if it is accepted, the use reads whatever the first binding left behind.
+inline std::string ScopeEscapeTemplate(Rng& r, const Env& env) {
+  if (env.baseNames.empty()) return "1=1";
+  const std::string B = r.Pick(env.baseNames), B2 = r.Pick(env.baseNames);
+  struct Shape { std::string dom, use; };
+  auto shape = [&](int k, const std::string& n) -> Shape {
+    switch (k) {
+    case 0: return { B, n + "∈" + B };
+    case 1: return { B + "×" + B2, "pr1(" + n + ")=pr1(" + n + ")" };
+    case 2: return { "ℬ(" + B + ")", "card(" + n + ")=card(" + n + ")" };
+    default: return { B + "×" + B2 + "×" + B, "pr3(" + n + ")=pr3(" + n + ")" };
+    }
+  };
+  static const char* names[]{ "ξ", "σ", "α", "x", "t" };
+  const std::string n = names[r.Below(5)], m = std::string(names[r.Below(5)]) + "7";
+  const int k1 = static_cast<int>(r.Below(4)); int k2 = static_cast<int>(r.Below(4)); if (k2 == k1) k2 = (k1 + 1) % 4;
+  const Shape s1 = shape(k1, n), s2 = shape(k2, n);
+  const std::string empty = "((" + s2.dom + ")\\(" + s2.dom + "))";
+  std::string first;
+  switch (r.Below(3)) {
+  case 0: first = "∀" + n + "∈" + s1.dom + " (" + s1.use + ")"; break;
+  case 1: first = "card(D{" + n + "∈" + s1.dom + "|" + s1.use + "})≥0"; break;
+  default: first = "card(I{" + n + "|" + n + ":∈" + s1.dom + "})≥0"; break;
+  }
+  const std::string inner = std::string(r.Pct(50) ? "∀" : "∃") + n + "∈" + (r.Pct(80) ? empty : s2.dom) + " (1=1)";
+  // (the grammar never brackets a quantifier: the parts are joined bare)
+  return first + "&∀" + m + "∈" + B + " (" + inner + (r.Pct(50) ? "&" : "∨") + "(" + s2.use + "))";
 }
 inline std::string Damage(Rng& r, std::string s) {   // storage fault on a stored text
   if (s.empty()) return s;
